@@ -78,6 +78,8 @@ class Check(common.Check):
             return 'py2lean self-test failed: ' + (p.stdout + p.stderr)[-600:]
         err, res = py2lean.generate('C15', str(common.REPO))
         if err:
+            # the tie is broken, but inputs must still be generated for the failing-input search
+            self.index = py2lean.c15_index_tolerant(str(common.REPO))
             return err
         self.index = res['index']
         return None
@@ -379,6 +381,26 @@ class Check(common.Check):
             return ['opnd', self.numeric_of(rng, d[1])]
         raise ValueError(d)
 
+    def sweep_builtin_reflected(self, rng):
+        """Every binary builtin called as a module function with a plain number on the left and a
+        lifted object on the right, `bi.f(number, lifted)` — incl. the builtins whose second argument
+        has a default (round, roundup, trunc, next_near_power, previous_near_power)."""
+        kinds = self.index.get('builtin_kinds') or {}
+        cases = []
+        for name in sorted(kinds):
+            if kinds[name] != 'binop' or name in self.RANDOM_OPS or name == 'urshift':
+                continue
+            for k in ('fn', 'strm', 'pat', 'chan', 'opnd'):
+                left = ['num', fnum(rng.choice([7.25, 3.5, 10, 6, 2.75, 12]), False)]
+                if rng.random() < 0.4:
+                    left = ['num', fnum(rng.choice([7, 3, 10, 6, 12]), True)]
+                right = self.numeric_of(rng, self.operand(rng, k, leaf=self.sym))
+                if right[0] == 'chan' and not right[1]:
+                    right = ['chan', [['num', 'f:3/2'], ['num', 'i:2']]]
+                cases.append({'via': 'bi', 'name': name, 'ns': 'bi', 'sel': name, 'kind': 'binop', 'numeric': True,
+                              'x0': fnum(rng.choice([1, 2, 0.5, 3]), False), 'args': [left, right]})
+        return cases
+
     def gen_lift_numeric(self, rng):
         ops = self.index.get('ops') or []
         kinds = self.index.get('builtin_kinds') or {}
@@ -415,8 +437,8 @@ class Check(common.Check):
     def gen(self, rng, n):
         if not getattr(self, 'index', None):
             err, res = py2lean.generate('C15', str(common.REPO), write=False)
-            self.index = res['index'] if res else {'exec': {}, 'real': {}}
-        cases = []
+            self.index = res['index'] if res else py2lean.c15_index_tolerant(str(common.REPO))
+        cases = self.sweep_builtin_reflected(rng)
         for _ in range(n):
             r = rng.random()
             if r < 0.55:
